@@ -2,39 +2,61 @@
 import common as c
 
 CASE_T = "(schema * document * list (name * value) * limits * bool * obs)"
+# second stream: the five verif_hooks::RULE_STEPS counters of one request
+RULE_T = "(schema * document * limits * bool * list N)"
 SPEC = {
     "pid": "C11",
     "facts": [],
     "bin": "c10",
     "extra_args": ["c11"],
-    "requires": "From AG Require Import LimitsCheck.",
+    "extra_bins": [{"bin": "c11r", "extra_args": [], "n_factor": 0.4}],
+    "requires": "From AG Require Import LimitsCheck RuleCost.",
     "def_type": "schema",
     "streams": [
         {"kind": "CASE", "type": CASE_T,
          "eval": "fun c => let '(s, d, v, l, f, o) := c in check_c11 s d 600 l f o", "per_shard": 30},
+        {"kind": "RULE", "type": RULE_T,
+         "eval": "fun c => let '(s, d, l, f, st) := c in check_c11r s d 2000 (rule_fuel d) l f st", "per_shard": 40},
     ],
     "classes": {1: "fragment-fanout-exponential"},
     "n_quick": 300, "n_thorough": 3000,
     "level": "proof",
     "coqc_timeout": 1500,
-    "what_violation": "checking work (selection visits counted by the cfg hook) exceeds 4*(size+1)^2 or differs from the cost model",
+    "what_violation": ("checking work exceeds its proved/tested polynomial or differs from the cost model (CASE: selection visits counted by the first cfg hook "
+                       "vs 4*(size+1)^2; RULE: the five rule-step counters of the second cfg hook vs [2s^2, s, o(1+s), o(1+s), o+(o+1)s])"),
     "rule": ("random documents plus adversarial families (fragment fan-out chains up to 2^13 / 2^17 visits, wide overlapping selections, deep inline "
-             "nesting, many operations); the three hook counters (validation visitor, recursion walker, directive walker) are compared for EQUALITY "
-             "with the model; distinct by case text; non-trivial = decision != accept or complexity/depth > 1"),
-    "trusted": ["cfg(async_graphql_verif) visit counters (hook commit in MANIFEST.hooks)", "harness printers",
-                "cost of pest parsing and of the individual validation rules' own loops is not modelled (only selection visits)"],
-    "assumptions": ["work = selection visits of validation::visitor::visit_selection + the two schema.rs walkers",
-                    "polynomial bound tested: 4*(size+1)^2 visits, size = selections written in the document"],
+             "nesting, many operations); stream CASE: the three visit counters (validation visitor, recursion walker, directive walker) are compared for "
+             "EQUALITY with the model; stream RULE (every c10 document again + bin c11r: UNUSED fan-out chains up to k=14, nested-spread chains, used chains, "
+             "25-40 operations sharing fragments directly/transitively, unused and used fragment cycles, self-spreads, undefined spreads, inline nesting to 60, "
+             "wide sets with repeated spreads, duplicate spreads in nested fields, operations without a root type, __typename sub-selections, random fragment "
+             "graphs (5/6 acyclic), strict and fast mode): the five rule-step counters (FindConflicts::find iterations, CycleDetector::detect_from iterations, "
+             "find_undef_vars / find_used_vars / find_reachable_fragments calls) are compared for EQUALITY with RuleCost.rule_steps and against the proved "
+             "polynomial bounds; each c11r request runs under a 25 s watchdog (a hang is reported with the counters reached); distinct by case text; "
+             "non-trivial = decision != accept or complexity/depth > 1 (CASE), some counter > 1 (RULE)"),
+    "trusted": ["cfg(async_graphql_verif) visit counters and rule-step counters (both hook commits in MANIFEST.hooks)", "harness printers",
+                "not modelled: cost of pest parsing, of the rules' hash-map/hash-set operations and error formatting per step (each step is O(1) amortised "
+                "plus add_output's scan of one field's arguments), and of the rules without a fragment-graph walk (one callback per visited node)"],
+    "assumptions": ["work = selection visits of validation::visitor::visit_selection + the two schema.rs walkers + steps of the five rules that walk the fragment graph themselves",
+                    "polynomial bound tested for visits: 4*(size+1)^2, size = selections written in the document (fragment definitions included)",
+                    "rule steps: proved for every document <= [2*size^2, size, ops*(1+size), ops*(1+size), ops+(ops+1)*size]; theorems exclude fuel exhaustion of the model "
+                    "(the check evaluates with rule_fuel d and reports exhaustion as an unexpected code)",
+                    "the counters do not depend on hash-map iteration order (memoised walks: calls = roots + out-degrees of the scopes reached), so the model walks in document order"],
 }
 
 MANIFEST = {
     "category": "proof",
-    "technique": "Coq proof over a cost model (visits = size of the inlined document; closed-form exponential family by induction) tied to the code by exact equality with cfg-hook counters",
+    "technique": ("Coq proofs over a cost model tied to the code by exact equality with two sets of cfg-hook counters: selection visits (= size of the inlined document; "
+                  "closed-form exponential family by induction) and the steps of the validation rules' own memoised fragment-graph walks (polynomial bounds for every "
+                  "document by a NoDup/visited invariant)"),
     "text": ("Coq theorems: the Inline-mode pass visits exactly the selections of the inlined document; for every L a document of 2L+2 selections "
-             "within nesting L+1 costs 3*2^L-1 visits (induction on L) — the property is refuted as stated and recorded as a known finding; "
-             "the cost model is tied to the code by comparing the hook counters for equality on random and adversarial documents. Partial: parsing cost "
-             "and per-rule inner loops (e.g. OverlappingFieldsCanBeMerged) are not in the cost model."),
-    "note": "trusted: Coq kernel, hook counters, harness; no axioms. Partial cost model (selection visits only).",
+             "within nesting L+1 costs 3*2^L-1 visits (induction on L) — the property is refuted as stated and recorded as a known finding. "
+             "The five rules that walk the fragment graph themselves (OverlappingFieldsCanBeMerged, NoFragmentCycles, NoUndefinedVariables, NoUnusedVariables, "
+             "NoUnusedFragments) are modelled with their memo sets; each walk costs exactly items + out-degrees of the nodes entered for the first time, hence "
+             "<= 2*size^2, size, ops*(1+size), ops*(1+size), ops+(ops+1)*size steps for EVERY document (ops+spreads for NoUnusedFragments when operation names are distinct). "
+             "Both cost models are tied to the code by comparing the hook counters for equality on random and adversarial documents (unused fan-out chains, cycles, "
+             "shared fragments, deep inline nesting...). Partial: pest parsing cost and the per-step hash-map operations of the rules are not in the cost model; "
+             "model termination (fuel sufficiency) is checked per case, not proved."),
+    "note": "trusted: Coq kernel, hook counters, harness; no axioms. Cost model = selection visits + rule steps; parsing and hash operations unmodelled.",
 }
 
 
